@@ -13,6 +13,7 @@ This private submodule is *not* intended for importation by downstream callers.
 '''
 
 # ....................{ IMPORTS                            }....................
+from beartype.roar import BeartypeDecorHintPep585Exception
 from beartype._data.typing.datatypingport import Hint
 from beartype._util.hint.pep.utilpepget import get_hint_pep_origin_type
 
@@ -120,7 +121,8 @@ def reduce_hint_pep585_builtin_subbed_unknown(hint: Hint) -> type:
     # Pure-Python origin class originating this unrecognized subscripted builtin
     # type hint if this hint originates from such a class *OR* raise an
     # exception otherwise (i.e., if this hint originates from *NO* such class).
-    origin_type = get_hint_pep_origin_type(hint)
+    origin_type = get_hint_pep_origin_type(
+        hint=hint, exception_cls=BeartypeDecorHintPep585Exception)
 
     # Return this origin.
     return origin_type
